@@ -6,6 +6,8 @@ func branch(pc ProgramCounter, b ProgramCounter, C bool, bitmask Bitmask, instru
 		return ExitContinue, pc
 	case !bitmask.IsStartOfBasicBlock(b) && instruction.isOpcodeValid(b):
 		return ExitPanic, pc
+	case b == pc:
+		return exitContinueSelfBranch, b
 	default:
 		return ExitContinue, b
 	}
@@ -31,6 +33,9 @@ func djump(pc ProgramCounter, a uint32, jumpTable JumpTable, bitmask Bitmask) (E
 
 	if !bitmask.IsStartOfBasicBlock(newPC) {
 		return ExitPanic, pc
+	}
+	if newPC == pc {
+		return exitContinueSelfBranch, newPC
 	}
 
 	return ExitContinue, newPC
